@@ -1,0 +1,35 @@
+//go:build verif
+
+package transports
+
+// Contracts for the transports (comment-only; read by /verif/govc).
+
+// The Transport interface is abstracted by ghost fields (model fields of the object behind the interface);
+// every in-repo implementation is built on *transport, whose methods are verified against these contracts.
+//@ ghost field Transport.$writable bool
+//@ ghost field Transport.$protocol int
+//@ ghost field Transport.$rstate string
+//@ ghost field Transport.$discarded bool
+//@ ghost field Transport.$sid string
+
+//@ func Transport.Name()
+//@   opt stable
+//@   noeffect
+//@ func Transport.HandlesUpgrades()
+//@   opt stable
+//@   noeffect
+//@ func Transport.Writable()
+//@   pure
+//@   ensures result == this.$writable
+//@ func Transport.Protocol()
+//@   pure
+//@   ensures result == this.$protocol
+//@ func Transport.ReadyState()
+//@   pure
+//@   ensures result == this.$rstate
+//@ func Transport.Discarded()
+//@   pure
+//@   ensures result == this.$discarded
+//@ func Transport.Sid()
+//@   pure
+//@   ensures result == this.$sid
